@@ -9,10 +9,10 @@ def run(ctx):
     sl = {k: world.SLICES[k] for k in ("pre", "pre2", "model", "poc", "smooth", "split")}
     curve_check.run_engine(
         ctx, "C06_", sl,
-        n_random=120 if quick else 1200, rand_len=30,
+        n_random=120 if quick else 600, rand_len=30,
         rand_weights=dict(apply=7, fit=4, set=1, rate=0.3, scan=0.1,
                           mutate_pl=2, orphan=1),
-        walk_limit=250 if quick else None,
+        walk_limit=250 if quick else 600,
         curves=("syn1", "syn2", "rec1", "bad1", "bad2", "bad5", "tilt1",
                 "lag1"))
     if not quick:
